@@ -6,7 +6,7 @@ from .common import bump
 ID = "C07"
 AREA = "c07"
 LEAN_PROPS = "Litep2pVerif.Props.C07"
-THEOREMS = ["exit_reports_closed_once", "protocols_before_manager", "live_protocols_all_told",
+THEOREMS = ["exit_reports_closed_once", "tcploop_exit_reports_closed_once", "protocols_before_manager", "live_protocols_all_told",
             "app_closed_iff_last", "established_survives_dead_protocol", "redial_after_close"]
 MANIFEST = {
     "text": "Lean 4 theorems about an operational model of the TCP connection event loop (every exit incl. the `?` exits), of "
@@ -16,7 +16,11 @@ MANIFEST = {
             "manager, a dead receiver stops nobody from being told, ConnectionClosed iff last connection gone and after "
             "established, a dead protocol never fails a new connection, dialable afterwards. Tied to the code by (S1) "
             "exhaustive small-scope differential runs of the real ProtocolSet with harness-owned receivers and (S2) two real "
-            "Litep2p nodes on loopback whose event sequences the models must predict; a property-level oracle on both. "
+            "Litep2p nodes on loopback whose event sequences the models must predict, and (tcploop area) the REAL "
+            "TcpConnection::start loop driven over loopback TCP+noise+yamux with adapter-owned event sources (remote substreams "
+            "and their negotiation, protocol handles, commands, receivers) against the permit-aware loop model "
+            "Model/Conn/Permits.lean in checker mode (every order of the branches select! may take), incl. the no-permit exit "
+            "and its race with the idle exit repeated over fresh connections; a property-level oracle on all three. "
             "Defects §8 (h) and (i) are repaired by two fix: commits and the theorems hold at full strength.",
     "note": "Trusted: Lean kernel; axioms propext/Classical.choice/Quot.sound; the hand-written models and their tie (S1 "
             "deterministic differential runs; S2 sampled real-node scenarios, thread schedules of the real runtime are "
@@ -31,12 +35,19 @@ RULE = ("S1: operation sequences on the real ProtocolSet (<=3 protocols, channel
         "drained, report_established / report_closed / report_substream_failure, permits), exhaustive up to length 3 "
         "(quick) or 4 (thorough) over 2 protocols plus seeded longer sequences, each ending in a sweep that drains every "
         "receiver; S2: loopback scenarios (cause x protocol shut down before/after the connection x acting protocol) whose "
-        "full observation the loop+manager+accept models must predict. A case is non-trivial if a report call was made with "
+        "full observation the loop+manager+accept models must predict; tcploop: fixed, race (remote substream + last holder "
+        "released before the loop is polled), negotiation-spanning and seeded random operation sequences on the real "
+        "TcpConnection loop (1-3 protocols, keep-alive yes/no), every observation checked against the set the permit-aware "
+        "model allows. A case is non-trivial if a report call was made with "
         "a dead or full receiver, or it is a conclusive S2 scenario; distinct = distinct (ops, observations) by SHA-256")
 TRUSTED_BASE = ["Lean 4.33 kernel", "axioms: propext, Classical.choice, Quot.sound only",
-                "hand-written models Model/Conn/Close.lean, Model/Conn/Loop.lean tied to protocol_set.rs, tcp/connection.rs, "
-                "tcp/mod.rs (accept), manager/{mod,peer_state}.rs by this correspondence run",
-                "adapter /repo/src/verif/c07.rs, harness, verif.py, checks/c07.py",
+                "hand-written models Model/Conn/Close.lean, Model/Conn/Loop.lean, Model/Conn/Permits.lean tied to protocol_set.rs, "
+                "tcp/connection.rs (start, run_event_loop, handle_yamux_substream, handle_negotiated_substream, "
+                "handle_protocol_command), tcp/mod.rs (accept), manager/{mod,peer_state}.rs by this correspondence run",
+                "adapters /repo/src/verif/c07.rs, /repo/src/verif/tcploop.rs, harness, verif.py, checks/c07.py, checks/tcploop.py",
+                "tcploop: quiescence of the hand-polled futures is detected through TCP_INFO byte counters of the two loopback "
+                "sockets (nothing in flight) and waker flags; which ready select! branch is taken is sampled (the model allows "
+                "every order, the race arrangement is repeated over fresh connections)",
                 "tokio mpsc channel semantics as modelled; FuturesUnordered polls every pending send when woken",
                 "HashMap iteration order modelled as an arbitrary permutation (theorems hold for every order)",
                 "yamux / multistream-select / noise / TCP not modelled: their outcomes are inputs of the loop model"]
@@ -381,3 +392,23 @@ def nontrivial(case, out):
 
 def matches_known(k, v):
     return False
+
+
+# ---------------------------------------------------------------- the real event loop (engine: extra_cases)
+# S1/S2 above reach `TcpConnection::start` only through whole-node scenarios. The `tcploop` area drives the REAL loop
+# over loopback TCP with adapter-owned event sources (remote substreams, protocol handles, commands) and ties it to
+# Model/Conn/Permits.lean (the loop model of Model/Conn/Loop.lean plus the permits that decide the no-permit exit and
+# the idle exit). Judged here by the property-level oracle `tcploop.oracle_c07`.
+def extra_cases(rng, tier):
+    from . import tcploop
+    yield "TCPLOOP", tcploop.gen_cases(rng, tier, focus="C07")
+
+
+def oracle_extra(xpid, case, out):
+    from . import tcploop
+    return [dict(v, msg="(real TcpConnection loop, tcploop area) " + v["msg"]) for v in tcploop.oracle_c07(case, out)]
+
+
+def stats_extra(xpid, case, out, acc):
+    from . import tcploop
+    tcploop.stats(case, out, acc)
